@@ -44,6 +44,9 @@ struct Snap {
     d: Depth,
     rets: Vec<usize>,
     gosubs: Vec<usize>,
+    /// `return_marks`, `go_sub_marks` (hook commit `verif hook: … marks`), oldest first
+    ret_marks: Vec<(usize, usize, usize, usize)>,
+    gosub_marks: Vec<(usize, usize)>,
     err_code: Option<i32>,
     err_addr: Option<usize>,
     /// 0 = none, 1 = resume next, 2 = address
@@ -444,6 +447,119 @@ fn fault_programs() -> Vec<(String, String)> {
     out
 }
 
+/// Family `writeback-faults`: the write-back of a by-reference actual fails — an element of a dynamic array that the
+/// error handler, entered while the callee was interrupted, REDIMmed smaller — at position 1..k of the k = 1..3
+/// by-reference actuals of a SUB / FUNCTION call, at the module level / in a FOR body / in a CASE block / in a GOSUB
+/// routine called from a FOR body, under three handler modes (RESUME NEXT; the handler switches to ON ERROR RESUME NEXT;
+/// the handler REDIMs the array back and RESUMEs: the call statement runs again).  Further calls with by-reference
+/// actuals follow.  What the oracle looks at: the by-ref queue at every resume point (exactly base + certificate).
+fn writeback_fault_programs() -> Vec<(String, String)> {
+    let mut out = vec![];
+    let others = ["B%(1)", "V%", "B%(2)"];
+    for k in 1..=3usize {
+        for f in 1..=k {
+            for callee in ["sub", "function"] {
+                for ctx in ["top", "in-for", "in-select", "in-gosub-in-for"] {
+                    for mode in ["handler-resume-next", "handler-switch-to-next", "handler-repair-resume"] {
+                        let params: Vec<String> = (1..=k).map(|i| format!("P{}%", i)).collect();
+                        let mut o = others.iter();
+                        let actuals: Vec<String> = (1..=k).map(|i| if i == f { "A%(5)".to_owned() } else { (*o.next().unwrap()).to_owned() }).collect();
+                        let call_stmt = if callee == "sub" { format!("W {}", actuals.join(", ")) } else { format!("U% = 100 + G%({})", actuals.join(", ")) };
+                        let kk: Vec<String> = vec![
+                            call_stmt,
+                            "PRINT \"after call\"; A%(1); B%(1); B%(2); B%(3); V%; U%".to_owned(),
+                            "BN B%(3)".to_owned(),
+                            "PRINT \"after BN\"; A%(1); B%(1); B%(2); B%(3); V%; U%".to_owned(),
+                            "U% = G1%(V%) + G1%(A%(2))".to_owned(),
+                            "PRINT \"after G1\"; A%(1); A%(2); B%(3); V%; U%".to_owned(),
+                        ];
+                        let ind = |v: Vec<String>| -> Vec<String> { v.into_iter().map(|l| format!("  {}", l)).collect() };
+                        let in_for = |v: Vec<String>| -> Vec<String> {
+                            let mut r = vec!["FOR O% = 1 TO 2".to_owned()];
+                            r.extend(ind(v));
+                            r.push("  PRINT \"after, in for\"; O%".to_owned());
+                            r.push("NEXT".to_owned());
+                            r
+                        };
+                        let mut p: Vec<String> = vec![
+                            format!("DECLARE SUB W ({})", params.join(", ")),
+                            format!("DECLARE FUNCTION G% ({})", params.join(", ")),
+                            "DECLARE FUNCTION G1% (Q%)".to_owned(),
+                            "DECLARE SUB BN (Q%)".to_owned(),
+                            "DIM SHARED C%, Z%".to_owned(),
+                            "REDIM A%(1 TO 5)".to_owned(),
+                            "DIM B%(1 TO 3)".to_owned(),
+                            "ON ERROR GOTO Hh".to_owned(),
+                        ];
+                        let mut routines: Vec<String> = vec![];
+                        match ctx {
+                            "top" => p.extend(kk),
+                            "in-for" => p.extend(in_for(kk)),
+                            "in-select" => {
+                                p.push("SELECT CASE 3".to_owned());
+                                p.push("CASE 3".to_owned());
+                                p.extend(ind(kk));
+                                p.push("  PRINT \"after, in case\"".to_owned());
+                                p.push("CASE ELSE".to_owned());
+                                p.push("  PRINT \"e\"".to_owned());
+                                p.push("END SELECT".to_owned());
+                            }
+                            _ => {
+                                p.extend(in_for(vec!["GOSUB Rr".to_owned()]));
+                                routines.push("Rr:".to_owned());
+                                routines.extend(kk);
+                                routines.push("PRINT \"after, in routine\"".to_owned());
+                                routines.push("RETURN".to_owned());
+                            }
+                        }
+                        p.push("PRINT \"end\"; C%".to_owned());
+                        p.push("END".to_owned());
+                        p.extend(routines);
+                        p.push("Hh:".to_owned());
+                        p.push("C% = C% + 1".to_owned());
+                        p.push("PRINT \"h\"; ERR; C%".to_owned());
+                        p.push("IF C% = 1 THEN REDIM A%(1 TO 2)".to_owned());
+                        match mode {
+                            "handler-switch-to-next" => p.push("IF C% = 1 THEN ON ERROR RESUME NEXT".to_owned()),
+                            "handler-repair-resume" => {
+                                p.push("IF C% = 2 THEN".to_owned());
+                                p.push("  REDIM A%(1 TO 5)".to_owned());
+                                p.push("  RESUME".to_owned());
+                                p.push("END IF".to_owned());
+                            }
+                            _ => {}
+                        }
+                        p.push("RESUME NEXT".to_owned());
+                        for (head, tail, result) in [("SUB W", "END SUB", None), ("FUNCTION G%", "END FUNCTION", Some("  G% = 9"))] {
+                            p.push(format!("{} ({})", head, params.join(", ")));
+                            for (i, q) in params.iter().enumerate() {
+                                p.push(format!("  {} = {} + {}", q, q, i + 1));
+                            }
+                            if let Some(r) = result {
+                                p.push(r.to_owned());
+                            }
+                            // the error that brings the handler in while the callee is interrupted (only the first
+                            // activation: Z% is repaired by the callee itself afterwards)
+                            p.push("  T% = 1 / Z%".to_owned());
+                            p.push("  Z% = 1".to_owned());
+                            p.push(tail.to_owned());
+                        }
+                        p.push("FUNCTION G1% (Q%)".to_owned());
+                        p.push("  Q% = Q% + 10".to_owned());
+                        p.push("  G1% = Q%".to_owned());
+                        p.push("END FUNCTION".to_owned());
+                        p.push("SUB BN (Q%)".to_owned());
+                        p.push("  Q% = Q% + 100".to_owned());
+                        p.push("END SUB".to_owned());
+                        out.push((format!("k{}/f{}/{}/{}/{}", k, f, callee, ctx, mode), p.join("\n") + "\n"));
+                    }
+                }
+            }
+        }
+    }
+    out
+}
+
 fn shape_signature(text: &str) -> String {
     // construct multiset: which statement keywords occur
     let u = text.to_ascii_uppercase();
@@ -486,9 +602,9 @@ fn flush_runs(rep: &mut Report, run_reqs: &mut Vec<(String, String)>) {
                 kind: if what == "depths" || what == "address-stacks" { Kind::ImplVsProperty } else { Kind::ModelVsImpl },
                 signature: format!("dynamic:marks-machine-differs:{}", what),
                 input: text.clone(),
-                implementation: format!("driver answer {} (observation index, what, the machine's pc, depths, return addresses, GOSUB addresses)", ans.chars().take(300).collect::<String>()),
-                expected: "the global machine with recorded heights (Thm/C15Marks.lean) and the real VM agree on pc, the five absolute depths and both address stacks before every executed instruction".into(),
-                note: "depths / address-stacks: the real VM does not restore / balance as the machine does; otherwise the machine's transcription of the VM is off".into(),
+                implementation: format!("driver answer {} (observation index, what, the machine's pc, depths, return addresses, GOSUB addresses, return marks, GOSUB marks)", ans.chars().take(300).collect::<String>()),
+                expected: "the global machine with recorded heights (Thm/C15Marks.lean) and the real VM agree on pc, the five absolute depths, both address stacks and the recorded heights (return_marks, go_sub_marks) before every executed instruction".into(),
+                note: "depths / address-stacks: the real VM does not restore / balance as the machine does; marks: the heights the VM keeps beside its address stacks are not the stored components of the machine's pending frames; otherwise the machine's transcription of the VM is off".into(),
             });
         }
     }
@@ -620,6 +736,23 @@ fn main() {
         }
     }
     rep.bump_by("programs.arg-faults", n_arg_faults);
+    // family `writeback-faults`: a failing by-reference write-back; quick: a third (every k, position, callee, context
+    // and handler mode in every slice), thorough: all
+    let all_wb = writeback_fault_programs();
+    let n_all_wb = all_wb.len();
+    let mut n_wb = 0u64;
+    for (i, (name, t)) in all_wb.into_iter().enumerate() {
+        if thorough || (i + i / 3 + i / 12) % 3 == offset {
+            rep.bump(&format!("writeback-faults.mode.{}", name.rsplit('/').next().unwrap_or("?")));
+            rep.bump(&format!("writeback-faults.position.{}", name.split('/').take(2).collect::<Vec<_>>().join("/")));
+            programs.push((t, "writeback-faults"));
+            n_wb += 1;
+        }
+    }
+    rep.bump_by("programs.writeback-faults", n_wb);
+    if thorough {
+        rep.exhaustive_parts.push(format!("writeback-faults: all {} combinations of k x failing position x SUB / FUNCTION x context x handler mode", n_all_wb));
+    }
     if thorough {
         rep.exhaustive_parts.push(format!("arg-faults: all {} combinations of host x fault x context x handler mode (without the no-handler mode)", n_all_arg_faults));
     }
@@ -632,7 +765,7 @@ fn main() {
             Ok(Ok((res, udt))) => compiled.push((text.clone(), *origin, res, udt)),
             Ok(Err(_)) => {
                 rep.bump("rejected-by-front-end");
-                if *origin == "faults" || *origin == "marks" || *origin == "arg-faults" || *origin == "block-labels" {
+                if *origin == "faults" || *origin == "marks" || *origin == "arg-faults" || *origin == "block-labels" || *origin == "writeback-faults" {
                     rep.case(Some(text.clone()));
                     rep.fail(Failure {
                         kind: Kind::ModelVsImpl,
@@ -816,6 +949,8 @@ fn main() {
             .collect();
         let statement_addresses: Vec<usize> = res.statement_addresses.clone();
         let plain_jump: Vec<bool> = res.instructions.iter().map(|ip| matches!(ip.element, Instruction::Jump(_))).collect();
+        // a store through a variable path: where a by-reference write-back fails
+        let res_kinds_store: Vec<bool> = res.instructions.iter().map(|ip| matches!(ip.element, Instruction::CopyAToVarPath)).collect();
         let snaps2 = snaps.clone();
         let obs = Box::new(move |s: &Snapshot| {
             let mut v = snaps2.borrow_mut();
@@ -831,6 +966,8 @@ fn main() {
                     },
                     rets: s.return_address_stack.clone(),
                     gosubs: s.go_sub_address_stack.clone(),
+                    ret_marks: s.return_marks.clone(),
+                    gosub_marks: s.go_sub_marks.clone(),
                     err_code: s.last_error_code,
                     err_addr: s.last_error_address,
                     handler_kind: s.handler_kind,
@@ -880,7 +1017,8 @@ fn main() {
         };
         let mut resume_check = false;
         let mut handled_errors = 0u64;
-        let is_family_faults = origin == "faults" || origin == "arg-faults";
+        let is_family_faults = origin == "faults" || origin == "arg-faults" || origin == "writeback-faults";
+        let mut subscript_errors = 0u64;
         for (idx, sn) in trace.iter().enumerate() {
             let (pc, d) = (&sn.pc, &sn.d);
             let Some(Some(rel)) = cert.get(*pc) else {
@@ -943,6 +1081,25 @@ fn main() {
                         });
                         break;
                     }
+                    // The by-ref queue is filled and drained by the epilogue of ONE call (Enqueue* .. PopStack ..
+                    // (Dequeue .. store)*): outside an epilogue it is empty, and when a store of the epilogue fails the
+                    // entries still waiting are dropped with the abandoned statement (`abandon_failed_call`).  Where
+                    // execution continues the length must be exactly base + certificate: an entry left behind is
+                    // dequeued by the NEXT call, whose own results then arrive one call late.
+                    if base.b - b2.b > 0 {
+                        rep.fail(Failure {
+                            kind: Kind::ImplVsProperty,
+                            signature: "dynamic:resume-point-excess:by-ref".into(),
+                            input: text.clone(),
+                            implementation: format!(
+                                "execution continues after a handled error at pc {} with depths {:?}; the certificate there is {:?} on activation base {:?}",
+                                pc, d, rel, b2
+                            ),
+                            expected: "where execution continues after a handled error the by-ref queue holds exactly what the activation had before the failed statement: the results of the abandoned call that were still waiting to be written back are gone".into(),
+                            note: "whatever a statement pushes on the by-ref queue is popped again, also when the statement is abandoned at a handled error".into(),
+                        });
+                        break;
+                    }
                     for (n, x) in pairs.iter() {
                         if *x > 0 {
                             rep.bump(&format!("dynamic.resume-point-excess.{}", n));
@@ -1001,6 +1158,9 @@ fn main() {
             }
             if failed {
                 handled_errors += 1;
+                if next.err_code == Some(9) && matches!(res_kinds_store.get(*pc), Some(true)) {
+                    subscript_errors += 1;
+                }
                 if sn.handler_kind == 2 && next.pc == sn.handler_address {
                     acts.push((7, None, zero.clone())); // the handler runs on top of the interrupted activation
                 } else if sn.handler_kind == 1 {
@@ -1077,6 +1237,19 @@ fn main() {
                 });
             }
         }
+        if origin == "writeback-faults" && subscript_errors == 0 {
+            rep.fail(Failure {
+                kind: Kind::ModelVsImpl,
+                signature: "dynamic:writeback-faults-program-without-failed-store".into(),
+                input: text.clone(),
+                implementation: "no store through a variable path was seen to fail with Subscript out of range".into(),
+                expected: "every program of the family has a by-reference write-back that fails".into(),
+                note: "the family is off".into(),
+            });
+        }
+        if subscript_errors > 0 {
+            rep.bump("dynamic.programs-with-failed-store-through-a-path");
+        }
         // (any origin: a panic of the VM after an error was handled is a pop of something that is not there / not the
         // popping party's — `value_stack underflow!`, `Expected normal state`)
         if run.is_err() && (is_family_faults || handled_errors > 0) {
@@ -1110,7 +1283,9 @@ fn main() {
             }
             let (pc, d, rets, gosubs) = (&sn.pc, &sn.d, &sn.rets, &sn.gosubs);
             let list = |v: &Vec<usize>| v.iter().rev().map(|x| x.to_string()).collect::<Vec<_>>().join(" ");
-            req.push_str(&format!(" ({} {} {} {} {} {} ({}) ({}))", pc, d.v, d.r, d.c, d.p, d.b, list(rets), list(gosubs)));
+            let rm = sn.ret_marks.iter().rev().map(|m| format!("({} {} {} {})", m.0, m.1, m.2, m.3)).collect::<Vec<_>>().join(" ");
+            let gm = sn.gosub_marks.iter().rev().map(|m| format!("({} {})", m.0, m.1)).collect::<Vec<_>>().join(" ");
+            req.push_str(&format!(" ({} {} {} {} {} {} ({}) ({}) ({}) ({}))", pc, d.v, d.r, d.c, d.p, d.b, list(rets), list(gosubs), rm, gm));
             n_obs += 1;
         }
         req.push(')');
